@@ -1,0 +1,57 @@
+//go:build verif
+
+// Contracts for the verifier in /verif (comment-only file; contributes no declarations).
+package harcollector
+
+// ---------------------------------------------------------------- C16: which exclusions reach the body obfuscation
+// The exclusions handed to ObfuscateJSON for a body are exactly the configured exclusions that address that body
+// (prefix "$.request.body" / "$.response.body"), and selecting them leaves the configured list - which the processor
+// shares across transactions - as it was. strings.HasPrefix is an uninterpreted observer here (the same function in code and contract).
+//@ func (*apiStreamObfuscator).filterBodyExclusions
+//@   prop C16
+//@   requires o != nil
+//@   modifies nothing
+//@   ghostlocal src gmap[int]int
+//@   loop 1 modifies nothing
+//@   loop 1 do src[len(bodyExclusions) - 1] = ite(strings.HasPrefix(o.obfuscateExclusions[idx1-1], exclusionPrefix), idx1 - 1, src[len(bodyExclusions) - 1])
+//@   loop 1 invariant[selected-are-own] len(bodyExclusions) >= 0 && len(bodyExclusions) <= idx1 && forall(j, 0, len(bodyExclusions), 0 <= src[j] && src[j] < idx1 && bodyExclusions[j] == o.obfuscateExclusions[src[j]] && strings.HasPrefix(bodyExclusions[j], exclusionPrefix))
+//@   loop 1 invariant[all-own-selected] forall(i, 0, idx1, strings.HasPrefix(o.obfuscateExclusions[i], exclusionPrefix) ==> exists(j, 0, len(bodyExclusions), bodyExclusions[j] == o.obfuscateExclusions[i]))
+//@   ensures[only-exclusions-of-this-body] forall(j, 0, len(result), strings.HasPrefix(result[j], exclusionPrefix) && exists(i, 0, len(o.obfuscateExclusions), o.obfuscateExclusions[i] == result[j]))
+//@   ensures[every-exclusion-of-this-body] forall(i, 0, len(o.obfuscateExclusions), strings.HasPrefix(o.obfuscateExclusions[i], exclusionPrefix) ==> exists(j, 0, len(result), result[j] == o.obfuscateExclusions[i]))
+
+// ghost record of the call to the JSON obfuscator (its walk is proved in utils/obfuscation)
+//@ ghost var gJSONCalled bool
+//@ ghost var gJSONBody string
+//@ ghost var gJSONExcl []string
+//@ extern Obfuscator.ObfuscateJSON
+//@   params body, excludedPaths
+//@   modifies gJSONCalled, gJSONBody, gJSONExcl
+//@   ensures gJSONCalled && gJSONBody == body && gJSONExcl == excludedPaths
+//@ pure Obfuscator.ObfuscateString
+//@ ghost func bodyExclOK(o *apiStreamObfuscator, prefix string, ex []string) bool = forall(j, 0, len(ex), strings.HasPrefix(ex[j], prefix) && exists(i, 0, len(o.obfuscateExclusions), o.obfuscateExclusions[i] == ex[j])) && forall(i, 0, len(o.obfuscateExclusions), strings.HasPrefix(o.obfuscateExclusions[i], prefix) ==> exists(j, 0, len(ex), ex[j] == o.obfuscateExclusions[i]))
+
+//@ func (*apiStreamObfuscator).obfuscateBody
+//@   prop C16
+//@   requires o != nil
+//@   modifies gJSONCalled, gJSONBody, gJSONExcl
+//@   on entry do gJSONCalled = false
+//@   ensures[disabled-or-empty-untouched] !o.obfuscateEnabled || body == "" ==> result == body && !gJSONCalled
+//@   ensures[whole-body-with-own-exclusions] o.obfuscateEnabled && body != "" ==> gJSONCalled && gJSONBody == body && bodyExclOK(o, bodyExclusionsPrefix, gJSONExcl)
+//@   ensures[never-verbatim-on-failure] o.obfuscateEnabled && body != "" && err != nil ==> result == o.obfuscator.ObfuscateString(body)
+//@   ensures[the-obfuscated-document] o.obfuscateEnabled && body != "" && err == nil ==> result == obfuscatedBody
+
+//@ func (*apiStreamObfuscator).ObfuscateRequestBody
+//@   prop C16
+//@   requires o != nil
+//@   modifies gJSONCalled, gJSONBody, gJSONExcl
+//@   on entry do gJSONCalled = false
+//@   ensures[request-body-exclusions] o.obfuscateEnabled && body != "" ==> gJSONCalled && gJSONBody == body && bodyExclOK(o, "$.request.body", gJSONExcl)
+//@   ensures[off-untouched] !o.obfuscateEnabled ==> result == body
+
+//@ func (*apiStreamObfuscator).ObfuscateResponseBody
+//@   prop C16
+//@   requires o != nil
+//@   modifies gJSONCalled, gJSONBody, gJSONExcl
+//@   on entry do gJSONCalled = false
+//@   ensures[response-body-exclusions] o.obfuscateEnabled && body != "" ==> gJSONCalled && gJSONBody == body && bodyExclOK(o, "$.response.body", gJSONExcl)
+//@   ensures[off-untouched] !o.obfuscateEnabled ==> result == body
